@@ -283,6 +283,11 @@ def _explore(ctx: Ctx, pid: str) -> None:
             metas.append((world, len(lines) + len(cl), evs, cfg, executed, seed, cls))
             lines += cl + ml + ["refhyp"]
     outs = ctx.lean("Drivers/C10.lean", lines)
+    try:
+        hyps = ctx.lean("Drivers/C10Hyp.lean", lines)      # imports the lemma files: unavailable while a proof is broken
+    except Exception as e:  # noqa: BLE001
+        hyps = None
+        ctx.notes.append(f"hypothesis driver Drivers/C10Hyp.lean unavailable ({type(e).__name__}); refinement hypotheses not measured in this run")
     for world, off, evs, cfg, executed, seed, cls in metas:
         ds = H.compare(world, outs[off:off + len(evs)], evs)
         for what, detail in ds[:1]:
@@ -291,7 +296,9 @@ def _explore(ctx: Ctx, pid: str) -> None:
             ctx.count("model:" + o.split(" ")[0])
         # hypothesis of C10.sched_refines_ledger (flat hardware configuration + protocol, evaluated by the Lean driver with
         # the decidable Refine.OkS at every step) and whether some step raised
-        hyp = outs[off + len(evs)].split(" ")
+        if hyps is None:
+            continue
+        hyp = hyps[off + len(evs)].split(" ")
         stale = any(e.get("stale_connector") for e in world.log if e["ev"] == "notify")
         if hyp[0] == "true":
             ctx.count("refinement-hypothesis:holds")
